@@ -143,6 +143,41 @@ fn run_model_accumulation(ctx: &mut Ctx, r: &mut Rng) {
             None => return,
         }
     }
+    // the handle `forward` hands back names the prediction: after the Model's backward(s) its gradient - when it holds
+    // one; when the caller marked it `.tracked()` it must - is d(cost)/d(prediction) times the number of passes
+    let keep_pred: Vec<u8> = (0..total).map(|i| if i >= n_before && i < n_before + n_model { r.below(3) as u8 } else { 0 }).collect();
+    let mut pred_want: Vec<Option<(Vec<f64>, Vec<f64>)>> = vec![None; total];
+    for bi in 0..total {
+        if keep_pred[bi] == 0 {
+            continue;
+        }
+        let pv: Vec<crate::refmodel::T<crate::refmodel::VA>> = params.iter().map(|p| crate::refmodel::T::from_f64(&p.dims, &p.v)).collect();
+        let iv: crate::refmodel::T<crate::refmodel::VA> = crate::refmodel::T::from_f64(&batches[bi].0.dims, &batches[bi].0.v);
+        if let Some((o, _)) = forward_ref::<crate::refmodel::VA>(&spec, &pv, &iv) {
+            let t = &batches[bi].1;
+            if t.dims != o.dims {
+                continue;
+            }
+            let times = if doubled[bi] { 2.0 } else { 1.0 };
+            let (mut g, mut sc) = (vec![], vec![]);
+            for (oj, tj) in o.v.iter().zip(&t.v) {
+                if spec.ce {
+                    let lead = o.dims[0] as f64;
+                    let gj = -tj / oj.v / lead;
+                    g.push(times * gj);
+                    sc.push(times * (gj.abs() + tj.abs() * oj.s / (oj.v * oj.v) / lead));
+                } else {
+                    let n = o.v.len() as f64;
+                    let gj = 2.0 * (oj.v - tj) / n;
+                    g.push(times * gj);
+                    sc.push(times * (gj.abs() + 2.0 * (oj.s + tj.abs()) / n));
+                }
+            }
+            pred_want[bi] = Some((g, sc));
+        }
+    }
+    let mut pred_got: Vec<Option<Option<(Vec<usize>, Vec<f64>)>>> = vec![None; total];
+    let pred_got_ref = std::cell::RefCell::new(&mut pred_got);
     let res = guard(|| {
         let a = Acts::new();
         let mut layers = build_layers(&spec, &a, &params);
@@ -166,11 +201,15 @@ fn run_model_accumulation(ctx: &mut Ctx, r: &mut Rng) {
             let mut model = Model::new(refs, &opt, &costf);
             let shared = arr_t(&batches[k.min(batches.len() - 1)].1);
             for _ in 0..n_model {
-                let _ = model.forward(arr_t(&batches[k].0));
+                let y = model.forward(arr_t(&batches[k].0));
+                let y = if keep_pred[k] == 2 { y.tracked() } else { y };
                 let tgt = |k: usize| if share_target { shared.clone() } else { arr_t(&batches[k].1) };
                 let _ = model.backward(tgt(k));
                 if doubled[k] {
                     let _ = model.backward(tgt(k));
+                }
+                if keep_pred[k] > 0 {
+                    pred_got_ref.borrow_mut()[k] = Some(y.gradient().as_ref().map(|g| (g.dimensions().to_vec(), vals(g))));
                 }
                 k += 1;
             }
@@ -202,6 +241,37 @@ fn run_model_accumulation(ctx: &mut Ctx, r: &mut Rng) {
         return;
     }
     ctx.count("model_accumulations_compared", 1);
+    for bi in 0..total {
+        let (want_p, got_p) = match (&pred_want[bi], &pred_got[bi]) {
+            (Some(w), Some(g)) => (w, g),
+            _ => continue,
+        };
+        match got_p {
+            None => {
+                if keep_pred[bi] == 2 {
+                    ctx.violation("C10|model-accumulation|prediction-gradient-missing", format!("the prediction returned by forward was marked .tracked() by the caller; after the Model's backward it holds no gradient (pass {})\n{}", bi, desc));
+                    return;
+                }
+                ctx.count("predictions_without_a_gradient", 1);
+            }
+            Some((d, v)) => {
+                ctx.count("prediction_gradients_compared", 1);
+                if v.len() != want_p.0.len() || d != &batches[bi].1.dims {
+                    ctx.violation("C10|model-accumulation|prediction-gradient-dims", format!("gradient of the prediction has dims {:?}, the prediction {:?} (pass {})\n{}", d, batches[bi].1.dims, bi, desc));
+                    return;
+                }
+                for j in 0..v.len() {
+                    let sc = want_p.1[j].max(1.0) * 10.0;
+                    let e = (v[j] - want_p.0[j]).abs();
+                    ctx.fmax("model-accumulation-prediction", e / (tau() * sc));
+                    if !(e <= tau() * sc) {
+                        ctx.violation("C10|model-accumulation|prediction-gradient", format!("gradient of the prediction, element {}: {} after {} backward call(s) of the Model, d cost / d prediction gives {}\n{}", j, v[j], if doubled[bi] { 2 } else { 1 }, want_p.0[j], desc));
+                        return;
+                    }
+                }
+            }
+        }
+    }
     for i in 0..np {
         match &got[i] {
             None => {
@@ -249,6 +319,7 @@ pub fn run_case(ctx: &mut Ctx, fam: &str, _k: u64, r: &mut Rng) {
     };
     let steps = ctx.tier.n(20, 40) as usize;
     let mut clears = 0u64;
+    let mut flagged = 0u64;
     let mut steered = 0u64;
     if fam == "untracked-then-tracked" {
         // x used untracked inside a differentiated graph, then tracked
@@ -325,13 +396,18 @@ pub fn run_case(ctx: &mut Ctx, fam: &str, _k: u64, r: &mut Rng) {
             let n = *r.pick(&live_ops);
             h.drop_handle(n);
         } else {
-            // fetch (read) - the comparison below reads every gradient anyway
+            // a clone whose flags are changed by value (a detached copy, a constant for something else): the handle it
+            // was cloned from keeps its flags and its gradient
+            let live = h.live();
+            h.flagged_clone(*r.pick(&live), r.chance(1, 3), r.chance(1, 2));
+            flagged += 1;
         }
         h.check_slots();
     }
     let multi = h.slot.iter().flatten().any(|s| s.contributions >= 2);
     ctx.case(&h.text(), h.passes >= 2 && multi);
     ctx.count("clears", clears);
+    ctx.count("flagged_clones_taken", flagged);
     ctx.count("steered_passes", steered);
     ctx.hist("family", fam);
     ctx.hist("passes_per_history", &format!("{:02}", h.passes.min(30)));
